@@ -79,6 +79,44 @@ def chars(x: str, ctx: int, style_i: int, flow_i: int, allow_unicode: bool, brea
     return 'ok'
 
 
+def tag_chars(c: str, where: int, allow_unicode: bool, canonical: bool, flow: bool) -> str:
+    """the same obligations where the free character sits in a tag, a %TAG prefix, or the suffix of a tag written with a handle
+    (tags are never written raw: outside the URI characters they are %-escaped, whatever allow_unicode says)"""
+    from yaml.nodes import ScalarNode, SequenceNode
+    tags = None
+    if where == 0:
+        tag = '!x' + c                     # local tag
+    elif where == 1:
+        tag = 'tag:e,2000:' + c            # verbatim !<...>
+    elif where == 2:
+        tags = {'!e!': 'tag:e,2000:'}
+        tag = 'tag:e,2000:s' + c           # handle + suffix
+    else:
+        # the character in a %TAG prefix: unit level (the emitter keeps prefixes as dict keys, which the engine can only enumerate)
+        try:
+            r = Emitter(Sink()).prepare_tag_prefix('tag:e' + c + '/')
+        except yaml.YAMLError:
+            return 'ok'
+        reach()
+        r = check_text(r, False, '\n')
+        return fail(P, 'TAG ' + r, where=where) if r else 'ok'
+    node = SequenceNode('tag:yaml.org,2002:seq', [ScalarNode(tag, 'v')], flow_style=flow)
+    out = Sink()
+    try:
+        yaml.serialize(node, out, allow_unicode=allow_unicode, canonical=canonical, tags=tags, line_break='\n')
+    except yaml.YAMLError:
+        return 'ok'                        # the emitter may refuse a tag it cannot write
+    except Exception as e:
+        not_a_finding(e)
+        return fail(P, 'dump ' + exc_sig(e), where=where)
+    reach()
+    text = out.getvalue()
+    r = check_text(text, False, '\n') or reread(text)
+    if r:
+        return fail(P, ('TAG ' + r), where=where)
+    return 'ok'          # (that the tag reads back as the same tag is C05's tag-uri cell)
+
+
 def alpha(i0: int, i1: int, i2: int, n: int, ctx: int, style_i: int, allow_unicode: bool, break_i: int, narrow: bool) -> str:
     x = ''
     ii = [i0, i1, i2]
@@ -328,6 +366,12 @@ def jobs(tier):
                                not narrow and not canonical],
                               budget=200 if q else 900,
                               bounds='str of len<=1 over all code points, context %d, style %r, allow_unicode=%r, line_break %s' % (ctx, STYLES[st], au, 'CRLF' if q else 'all 4')))
+    for w in range(4):
+        js.append(Job('tag-char/%d' % w, tag_chars,
+                      [lambda c, where, allow_unicode, canonical, flow, _w=w: where == _w and len(c) == 1 and not (0xd800 <= ord(c) <= 0xdfff) and (not canonical if q else True)],
+                      budget=250 if q else 900,
+                      bounds='one free character (every Unicode scalar value) in %s x allow_unicode x block / flow%s: output is printable ASCII that the reader accepts' % (
+                          ['a local tag', 'a verbatim tag', 'the suffix of a tag written with a handle', 'a %%TAG prefix (prepare_tag_prefix, unit level)'][w], '' if q else ' x canonical')))
     NA = len(ALPHA)
     AN = 2 if q else 3
     for a in range(NA):
